@@ -447,7 +447,9 @@ func frAfterErrorCheck(d0, d1 string) Verdict {
 			for a.Scan() {
 			}
 			if a.Err() == nil {
-				return fail("harness", "frAfterErrorCheck: the first input (%s) ended without an error", how)
+				// the premise (the previous input ended in an error) does not hold for this
+				// reader, e.g. one without a line limit: nothing to check
+				continue
 			}
 			a.Reset(strings.NewReader(d1), "second")
 			var da []string
